@@ -8,6 +8,7 @@ import (
 	"fmt"
 	"os"
 	"sync"
+	"time"
 
 	"github.com/uber-go/gopatch/patch"
 )
@@ -20,6 +21,8 @@ type apiOut struct {
 	RepeatSame bool   `json:"repeat_same"`
 	ConcSame   bool   `json:"conc_same"`
 	Panic      string `json:"panic,omitempty"`
+	Hang       bool   `json:"hang,omitempty"`
+	Skipped    bool   `json:"skipped,omitempty"`
 }
 
 func applyOnce(f *patch.File, name string, src []byte) (out string, errs string, pan string) {
@@ -41,9 +44,21 @@ func applyOnce(f *patch.File, name string, src []byte) (out string, errs string,
 func runAPI(cases []Case, rep, conc int) {
 	w := bufio.NewWriter(os.Stdout)
 	defer w.Flush()
+	hangs := 0
 	for _, c := range cases {
+		c := c
 		o := apiOut{ID: c.ID, RepeatSame: true, ConcSame: true}
-		func() {
+		if hangs >= 2 {
+			o.Skipped = true
+			bs, _ := json.Marshal(o)
+			w.Write(bs)
+			w.WriteByte('\n')
+			continue
+		}
+		done := make(chan apiOut, 1)
+		go func() {
+			o := o
+			func() {
 			defer func() {
 				if r := recover(); r != nil {
 					o.Panic = fmt.Sprint(r)
@@ -91,6 +106,14 @@ func runAPI(cases []Case, rep, conc int) {
 				wg.Wait()
 			}
 		}()
+			done <- o
+		}()
+		select {
+		case o = <-done:
+		case <-time.After(8 * time.Second):
+			o.Hang = true
+			hangs++
+		}
 		bs, _ := json.Marshal(o)
 		w.Write(bs)
 		w.WriteByte('\n')
